@@ -63,7 +63,7 @@ type builder struct {
 	toks []tok
 	pos  int
 	perr int
-	tags map[string]bool
+	tags *tagset
 }
 
 func (b *builder) leaf(t tok) []*node {
@@ -103,7 +103,7 @@ func (b *builder) leaf(t tok) []*node {
 	case tClose: // unmatched closer: preserved token
 		n.k, n.errk = nError, t.ch
 		b.perr++
-		b.tags["unmatched-close"] = true
+		b.tags.add("unmatched-close")
 	}
 	return []*node{n}
 }
@@ -142,14 +142,14 @@ func (b *builder) consumeComponentValue(depth int) []*node {
 		end = ')'
 	default:
 		if t.k == tComment && t.eof && depth > 0 {
-			b.tags["eof-in-comment-nested"] = true
+			b.tags.add("eof-in-comment-nested")
 		}
 		return b.leaf(t)
 	}
 	for {
 		if b.pos >= len(b.toks) {
 			b.perr++
-			b.tags["eof-in-block"] = true
+			b.tags.add("eof-in-block")
 			return []*node{n}
 		}
 		if c := b.toks[b.pos]; c.k == tClose && c.ch == end {
@@ -161,7 +161,7 @@ func (b *builder) consumeComponentValue(depth int) []*node {
 }
 
 // §5.3.10 parse a list of component values.
-func parseComponentValues(s string) (list []*node, perr int, tags map[string]bool) {
+func parseComponentValues(s string) (list []*node, perr int, tags *tagset) {
 	toks, l := lex(s)
 	b := &builder{toks: toks, tags: l.tags}
 	for b.pos < len(b.toks) {
